@@ -91,6 +91,8 @@ Options:
 		if err == _flag.ErrHelp {
 			return
 		}
+		// flag prints to stdout here, the failure belongs on stderr too
+		_fmt.Fprintln(_os.Stderr, "Error:", err)
 		_os.Exit(2)
 	}
 	args.Args = fs.Args()
@@ -357,7 +359,7 @@ Options:
 	logger := _log.New(_os.Stderr, "", 0)
 	if args.List {
 		if err := list(); err != nil {
-			_log.Println(err)
+			logger.Println("Error:", err)
 			_os.Exit(1)
 		}
 		return
